@@ -110,13 +110,6 @@ func eval(c Case) (v evid.Verdict, trivial bool) {
 		return evid.Pass(), true
 	}
 	ek := types.EncryptionKey{KeyType: et, KeyValue: key}
-	presBefore, keyBefore := append([]byte{}, pres...), append([]byte{}, key...)
-	defer func() {
-		// whatever the verdict on the message, the caller's ciphertext and key are the caller's
-		if v.OK && (!bytes.Equal(pres, presBefore) || !bytes.Equal(key, keyBefore)) {
-			v = evid.Fail(fmt.Sprintf("input-modified:etype%d", c.EType), "DecryptMessage changed the ciphertext or key buffer it was given (%s presentation): ciphertext %x -> %x", c.Tamper, presBefore, pres)
-		}
-	}()
 	got, err := crypto.DecryptMessage(pres, ek, usage)
 	e, eerr := crypto.GetEtype(et)
 	var got2 []byte
